@@ -5,6 +5,7 @@
  * with a count and the first witness; TLC judges every distinct class.  The fold is the projection function. */
 #include "common.h"
 #include "api.h"
+#include "xrayglob.h"
 #include <unistd.h>
 extern long W_over, W_live, W_files;
 
@@ -35,11 +36,12 @@ static void jstr_s(char *o, const char *s) {
   *o++ = '"'; for (; *s && o - wbuf < 900; s++) { unsigned char c = (unsigned char)*s; if (c == '"' || c == '\\') { *o++ = '\\'; *o++ = c; } else if (c < 0x20 || c >= 0x7f) o += sprintf(o, "\\u%04x", c); else *o++ = c; } *o++ = '"'; *o = 0;
 }
 /* one observation of a double-valued call: v with slot e, v2 without slot */
+static int REP = 1;      /* did a third call (again with a slot) reproduce the first one: value, error presence, code, message */
 static void observe(const char *fn, const char *argc, double v, xrl_error *e, double v2, long over, const char *wit) {
   char key[512];
-  snprintf(key, sizeof key, "\"fn\":\"%s\",\"argc\":\"%s\",\"kind\":\"double\",\"ret\":\"%s\",\"slot\":\"%s\",\"code\":%d,\"msg\":%d,\"over\":%d,\"same\":%d",
-           fn, argc, rcls(v), e ? "err" : "empty", e ? (int)e->code : -1, e ? (e->message && e->message[0]) : 0, over > 0, biteq(v, v2));
-  fold(key, wit);
+  snprintf(key, sizeof key, "\"fn\":\"%s\",\"argc\":\"%s\",\"kind\":\"double\",\"ret\":\"%s\",\"slot\":\"%s\",\"code\":%d,\"msg\":%d,\"over\":%d,\"same\":%d,\"rep\":%d",
+           fn, argc, rcls(v), e ? "err" : "empty", e ? (int)e->code : -1, e ? (e->message && e->message[0]) : 0, over > 0, biteq(v, v2), REP);
+  fold(key, wit); REP = 1;
 }
 static void observe_ptr(const char *fn, const char *argc, int nonnull, xrl_error *e, int nonnull2, long over, const char *wit) {
   char key[512];
@@ -57,9 +59,11 @@ static void observe_int(const char *fn, const char *argc, int v, xrl_error *e, i
 /* ------------------------------------------------------------------ argument samples */
 static double ELIST[64]; static int NE;
 static double ALIST[16]; static int NA;
-static const char *SLIST[] = {NULL, "", "H2O", "Ca5(PO4)3OH", "Fe", "U", "Rf", "Water, Liquid", "Gadolinium Oxysulfide", "garbage!", "H2O)", "Unobtainium", "SiO2", "C6H12O6", "Pu"};
+static char LONGNAME[9200];      /* an unknown name long enough to overflow any fixed message buffer */
+static const char *SLIST[] = {NULL, "", "H2O", "Ca5(PO4)3OH", "Fe", "U", "Rf", "Water, Liquid", "Gadolinium Oxysulfide", "garbage!", "H2O)", "Unobtainium", "SiO2", "C6H12O6", "Pu", "EsO2", "H2OFm", LONGNAME};
 #define NS ((int)(sizeof SLIST / sizeof *SLIST))
 static void build_lists(int thorough) {
+  memset(LONGNAME, 'q', sizeof LONGNAME - 1); LONGNAME[0] = 'N'; LONGNAME[sizeof LONGNAME - 1] = 0;
   static const double eq[] = {-1.0, 0.0, 1e-300, 1e-6, 0.05, 0.1, 1.0, 8.9789, 8.98, 20.0, 100.0, 799.9, 1000.0, 1e6, 1e300};
   static const double et[] = {-1e300, -1e-300, 1e-10, 0.001, 0.0099, 0.01, 0.0109, 0.5, 1.0000000001, 2.0, 5.0, 10.0, 28.0, 50.0, 88.0, 115.6, 200.0, 500.0, 800.0, 800.1, 1001.0, 1e4, 1e5};
   NE = 0; for (unsigned i = 0; i < sizeof eq / sizeof *eq; i++) ELIST[NE++] = eq[i];
@@ -79,10 +83,16 @@ static void drive_numeric(const ApiFn *f, int thorough) {
     for (int Z = zlo; Z <= zhi; Z++) for (int m = mlo; m <= mhi; m++) {
       ia[0] = Z; ia[1] = m;
       /* element-specific energies: both sides of the K and L3 edges (all K..M5 edges in the thorough tier) */
-      double el[96]; int ne = 0;
+      double el[128]; int ne = 0;
       for (int i = 0; i < NE; i++) el[ne++] = ELIST[i];
       if (nd && ni && Z >= 1 && Z <= 120 && (m == mlo || ni == 1)) {
         for (int sh = 0; sh <= (thorough ? 8 : 3); sh += (thorough ? 1 : 3)) { double ed = EdgeEnergy(Z, sh, NULL); if (ed > 0) { el[ne++] = ed * (1 - 1e-9); el[ne++] = ed * (1 + 1e-9); } }
+        /* the ends of the three component tables (they differ: a total exists only where all three do) and a point between any two distinct ends */
+        if (Z <= ZMAX) { double ends[6]; int nn = 0;
+          if (NE_Photo[Z] > 0) { ends[nn++] = exp(E_Photo_arr[Z][0]) / 1000.0; ends[nn++] = exp(E_Photo_arr[Z][NE_Photo[Z] - 1]) / 1000.0; }
+          if (NE_Rayl[Z] > 0) { ends[nn++] = exp(E_Rayl_arr[Z][0]) / 1000.0; ends[nn++] = exp(E_Rayl_arr[Z][NE_Rayl[Z] - 1]) / 1000.0; }
+          if (NE_Compt[Z] > 0) { ends[nn++] = exp(E_Compt_arr[Z][0]) / 1000.0; ends[nn++] = exp(E_Compt_arr[Z][NE_Compt[Z] - 1]) / 1000.0; }
+          for (int i = 0; i < nn && ne < 90; i++) { el[ne++] = ends[i] * (1 - 1e-6); el[ne++] = ends[i] * (1 + 1e-6); for (int j = 0; j < i && ne < 90; j++) if (fabs(ends[i] - ends[j]) > 1e-3 * ends[i] && fabs(log(ends[i] / ends[j])) < 3) el[ne++] = 0.5 * (ends[i] + ends[j]); } }
       }
       int n0 = nd >= 1 ? ne : 1, n1 = nd >= 2 ? NA : 1, n2 = nd >= 3 ? NA : 1;
       for (int a = 0; a < n0; a++) for (int b = 0; b < n1; b++) for (int c = 0; c < n2; c++) {
@@ -90,6 +100,8 @@ static void drive_numeric(const ApiFn *f, int thorough) {
         xrl_error *e = NULL; long o0 = W_over;
         double v = api_call(f, ia, da, s, &e); long over = W_over - o0;
         double v2 = api_call(f, ia, da, s, NULL);
+        { xrl_error *e3 = NULL; double v3 = api_call(f, ia, da, s, &e3);
+          REP = biteq(v, v3) && (e == NULL) == (e3 == NULL) && (!e || (e->code == e3->code && !strcmp(e->message ? e->message : "", e3->message ? e3->message : ""))); xrl_clear_error(&e3); }
         char argc[128]; int o = 0; argc[0] = 0;
         if (ns) o += sprintf(argc + o, "%s,", scls(s));
         for (int i = 0; i < ni; i++) o += sprintf(argc + o, "%s,", icls(ia[i]));
@@ -105,7 +117,7 @@ static void drive_numeric(const ApiFn *f, int thorough) {
 }
 
 /* ------------------------------------------------------------------ hand-driven functions */
-static const char *FORMULAS[] = {NULL, "", "H", "He", "H2O", "h2o", "Ca5(PO4)3OH", "Ca5(PO4)3(OH)", "(((H)))", "((H)2O)3", "H2O)", "(H2O", "()", "H0", "H0.0", "H1.5O0.5", "H.5", "H1.", "2O", "13Li",
+static const char *FORMULAS[] = {NULL, "", LONGNAME, "EsO2", "H", "He", "H2O", "h2o", "Ca5(PO4)3OH", "Ca5(PO4)3(OH)", "(((H)))", "((H)2O)3", "H2O)", "(H2O", "()", "H0", "H0.0", "H1.5O0.5", "H.5", "H1.", "2O", "13Li",
   "2(NO3)", "H(2)", "CuI2ww", "Au(11(H3PO4))2", "Rf", "Db", "Sg", "Bh", "Uuo", "Xx", "X", "A", "Fe2O3", "Fe 2O3", "Fe2O3 ", " Fe", "Fe\n", "Fe-", "Fe+2", "Fe2.5.5", "Fe1e3", "FeFeFe", "C1000000", "C0.0000001", "H1e-3", "é", "Fe\xc3\xa9", "(", ")", ")(", "(H", "H)", "H((", "O2(", "1", ".", "..", "a", "fe", "FE", "Na2(SO4)(H2O)10", "U238", "PuO2.000001",
   "HHHHHHHHHHHHHHHHHHHHHHHHHHHHHHHHHHHHHHHHHHHHHHHHHHHHHHHHHHHHHHHHHHHHHHHHHHHHHHHHHHHHHHHHHHHHHHHHHHHHHHHHHHHHHHHHHHHHHHHHHHHHHHHHHHHH"};
 #define NF ((int)(sizeof FORMULAS / sizeof *FORMULAS))
